@@ -20,7 +20,6 @@ type c20Case struct {
 	Path  []int  `json:"path"` // index into the deterministic enumeration: [type ordinal, value ordinal]
 	Desc  string `json:"desc"`
 	Depth int    `json:"depth"`
-	D, M  int    `json:"d,omitempty"`
 }
 
 func init() {
